@@ -767,3 +767,41 @@ func allocWritersBefore(al *ssa.Alloc, at ssa.Instruction) []ssa.Value {
 	walk(al)
 	return out
 }
+
+// machineWordOps lists machine-word integer arithmetic (of the given operators) in fn and in the
+// functions of the same package it calls statically (to the given depth). Used by the
+// "money is computed in arbitrary precision" rules: a product or sum of 64-bit quantities wraps silently.
+func machineWordOps(P *Prog, fn *ssa.Function, depth int, ops map[token.Token]bool, seen map[*ssa.Function]bool) []string {
+	if fn == nil || fn.Blocks == nil || seen[fn] {
+		return nil
+	}
+	seen[fn] = true
+	var out []string
+	for _, f := range withAnon(fn) {
+		eachInstr(f, func(in ssa.Instruction) {
+			switch x := in.(type) {
+			case *ssa.BinOp:
+				if !ops[x.Op] {
+					return
+				}
+				if bt, ok := x.Type().Underlying().(*types.Basic); ok && bt.Info()&types.IsInteger != 0 {
+					// loop counters and index arithmetic: an operand that is a small constant (|c| <= 1) is not money arithmetic
+					for _, o := range []ssa.Value{x.X, x.Y} {
+						if c, ok := o.(*ssa.Const); ok && c.Value != nil {
+							if v, ok2 := constant.Int64Val(constant.ToInt(c.Value)); ok2 && v >= -1 && v <= 1 {
+								return
+							}
+						}
+					}
+					out = append(out, fmt.Sprintf("%s %s in %s at %s", bt.Name(), x.Op, fnID(f), P.Pos(instrPos(in))))
+				}
+			case ssa.CallInstruction:
+				ci := callInfo(x)
+				if depth > 0 && ci.Static != nil && ci.Static.Blocks != nil && fnPkgPath(ci.Static) == fnPkgPath(fn) {
+					out = append(out, machineWordOps(P, ci.Static, depth-1, ops, seen)...)
+				}
+			}
+		})
+	}
+	return out
+}
